@@ -31,7 +31,8 @@ def obligation_id(unit, f):
 
 def match_known(known, prop, unit, f):
     for k in known.get("findings", []):
-        if k.get("property") != prop:
+        # a failing obligation is reported under every property its function serves (see `relevant`); so is a listed finding
+        if k.get("property") != prop and prop not in (k.get("also_reported_under") or []):
             continue
         if k.get("unit") and k["unit"] != unit:
             continue
@@ -39,6 +40,8 @@ def match_known(known, prop, unit, f):
             continue
         hay = (f.get("clause") or "") + " || " + (f.get("failed_requires") or "") + " || " + (f.get("msg") or "")
         if k.get("clause_contains") and re.sub(r"\s+", "", k["clause_contains"]) not in re.sub(r"\s+", "", hay):
+            continue
+        if k.get("requires_contains") and re.sub(r"\s+", "", k["requires_contains"]) not in re.sub(r"\s+", "", f.get("failed_requires") or ""):
             continue
         return k
     return None
@@ -205,6 +208,7 @@ def main(argv):
     fn_rows = []
     total_obl = 0
     discharged = 0
+    known_obl = 0
     trusted = set()
     applied_rules = {}
     panic_sites = []
@@ -244,9 +248,10 @@ def main(argv):
             undecided.append(f"{u}: LOST-ANCHOR functions missing from extraction: {missing}")
         # candidate failures
         cand = [f for f in R.failures if relevant(prop, f, unit_props)]
-        # stability: a candidate must reproduce on two more seeds, one of them with 4x rlimit
+        # stability: a candidate must reproduce on two more seeds, one of them with 4x rlimit (listed findings are not re-run:
+        # they are reported as KNOWN-FINDING while they fail and simply stop being reported when they no longer do)
         stable = cand
-        if cand:
+        if [f for f in cand if not match_known(known, prop, u, f)]:
             for (sd, rl) in ((seed + 1, 30), (seed + 2, 120)):
                 st2, R2, _ = _safe_verify(u, rl, sd)
                 if st2 != "ok":
@@ -274,13 +279,19 @@ def main(argv):
         for n in my_fns:
             ob = R.obligations.get(n, {"total": 1})
             total_obl += ob["total"]
-            bad_here = [f for f in R.failures if f["fn"] == n]
+            bad_all = [f for f in R.failures if f["fn"] == n]
+            # obligations that are listed findings are not claimed: they are taken out of the count on both sides and reported
+            # separately (coverage.known_finding_obligations)
+            kn_here = [f for f in bad_all if match_known(known, prop, u, f)]
+            known_obl += len(kn_here)
+            bad_here = [f for f in bad_all if f not in kn_here]
             und_here = [x for x in R.undecided if x.get("fn") == n]
             ok = not bad_here and not und_here and R.status == "ok"
+            total_obl -= len(kn_here)
             if ok:
-                discharged += ob["total"]
+                discharged += ob["total"] - len(kn_here)
             else:
-                discharged += max(0, ob["total"] - len(bad_here) - len(und_here))
+                discharged += max(0, ob["total"] - len(kn_here) - len(bad_here) - len(und_here))
             info = R.fn_info[n]
             fn_rows.append({"function": n, "unit": u, "source": f"{info['file']}:{info['line']}", "backend": "verus/z3",
                             "obligation_sites": ob, "verified": ok, "smt_ms": round(R.fn_times.get(n.replace("::", "::"), 0), 1)})
@@ -365,6 +376,8 @@ def main(argv):
             "panic_sites_in_scope": len(panic_sites),
             "canary_failed_as_expected": all(results[u][0] == "ok" and results[u][1].canary_failed for u in units),
             "known_findings_hit": [k.get("id") for (k, _) in known_hits],
+            "known_finding_obligations": known_obl,
+            "known_findings_note": ("obligations/discharged count what this run claims as proved; the %d obligation(s) that are listed findings (known_findings.json: genuine defects of /repo recorded, not repaired) fail, are reported as KNOWN-FINDING and are excluded from both numbers" % known_obl) if known_obl else "",
             "undecided": undecided[:20],
             "samples": samples,
             "solver_time_ms": smt_ms,
